@@ -1,11 +1,12 @@
 """U-cb: AssemblyCode::check_branches, verbatim (C03, C04 literal sizes, C13 fix labels, C16)."""
+import re
 from vf.core import Unit
 from vf.rustcut import SourceFile
 from . import common
 
 NAME = "U-cb"
 TOOL = "verus"
-PROPS = ["C03", "C04", "C13", "C16"]
+PROPS = ["C03", "C04", "C13", "C16", "C01", "C15"]
 RLIMIT = 150
 TRUSTED = ["verus 0.2026.09.13 + z3", "vstd specifications of Vec (index/get/push/truncate/split_off/append), slice::Iter::next, String ==/clone (A-vstd)",
            "std::fmt `{}` renders integers in decimal (A-fmt, R4)"]
@@ -262,18 +263,30 @@ def build(repo):
                                 if bytes_below <= 127 && !above { assert(in_range(code, position as int)); }
                             }
 """)
+    # the local that carries the branch's target: named by the code, not by this unit (a renamed local must not lose the proof)
+    hints = {"tgt_hint_b": "", "tgt_hint": "", "lab2_hint": ""}
+    mt = re.search(r"\b(\w+) = inst\.dasm_operand\.clone\(\);", cb.text)
+    mi = re.search(r"\b(\w+) = inst\.clone\(\);", cb.text)
+    if mt:
+        hints["tgt_hint_b"] = "assert(%s@ == opnd(b));" % mt.group(1)
+        hints["tgt_hint"] = "assert(%s@ == opnd(old_code[position as int]));" % mt.group(1)
+    elif mi:
+        hints["tgt_hint_b"] = "assert(%s.dasm_operand@ == opnd(b));" % mi.group(1)
+        hints["tgt_hint"] = "assert(%s.dasm_operand@ == opnd(old_code[position as int]));" % mi.group(1)
+    if re.search(r"\blet label2 = ", cb.text):
+        hints["lab2_hint"] = "assert(label2@ == fix_label(nb_fixes));"
     # repair
     cb.before(r"let operation2 = match operation", """
                 proof {
                     let b = old_code[position as int];
                     assert(is_cbl(b));
-                    assert(label@ == opnd(b));
+                    %(tgt_hint_b)s
                     assert(remove == 1 || remove == 2);
                     assert(remove == 2 ==> position + 1 < old_len);
                     assert(remove == 2 ==> old_code[position + 1] is Instruction);
-                    assert(remove == 2 ==> is_br(old_code[position + 1], AsmMnemonic::BEQ, label@));
+                    assert(remove == 2 ==> is_br(old_code[position + 1], AsmMnemonic::BEQ, opnd(old_code[position as int])));
                 }
-""")
+""" % hints)
     cb.after(r"if repair \{", """
                 let ghost old_code = self.code@;
                 let ghost old_len = old_code.len() as int;
@@ -290,22 +303,22 @@ def build(repo):
                     assert(only_flow(new_seg)); //@ C03:repair-only-branches
                     assert(flow_sizes_ok(new_seg)); //@ C04,C03:lit-cb-sizes
                     assert(only_flow(old_seg)); //@ C03:repair-removes-only-branches
-                    assert(label@ == opnd(old_code[position as int]));
-                    assert(label2@ == fix_label(nb_fixes));
+                    %(tgt_hint)s
+                    %(lab2_hint)s
                     // every flag combination takes the same exit (A-fixfresh as hypothesis)
-                    if label@ != fix_label(nb_fixes) && label@ != fixup_label(nb_fixes) {
+                    if opnd(old_code[position as int]) != fix_label(nb_fixes) && opnd(old_code[position as int]) != fixup_label(nb_fixes) {
                         if remove == 1 {
-                            lemma_repair_single(old_seg, new_seg, mnem(old_code[position as int]), label@, fix_label(nb_fixes)); //@ C03:repair-equiv-single
+                            lemma_repair_single(old_seg, new_seg, mnem(old_code[position as int]), opnd(old_code[position as int]), fix_label(nb_fixes)); //@ C03:repair-equiv-single
                         } else {
-                            lemma_repair_pair(old_seg, new_seg, mnem(old_code[position as int]), label@, fix_label(nb_fixes), fixup_label(nb_fixes)); //@ C03:repair-equiv-pair
+                            lemma_repair_pair(old_seg, new_seg, mnem(old_code[position as int]), opnd(old_code[position as int]), fix_label(nb_fixes), fixup_label(nb_fixes)); //@ C03:repair-equiv-pair
                         }
                     }
-                    assert((label@ != fix_label(nb_fixes) && label@ != fixup_label(nb_fixes)) ==> same_flow(new_seg, old_seg)); //@ C03:repair-equiv
+                    assert((opnd(old_code[position as int]) != fix_label(nb_fixes) && opnd(old_code[position as int]) != fixup_label(nb_fixes)) ==> same_flow(new_seg, old_seg)); //@ C03:repair-equiv
                     // the fresh label is defined exactly where the inverted branch expects it: last line of the segment
                     assert(is_lab(new_seg[new_seg.len() - 1], fix_label(nb_fixes))); //@ C03,C13:labels-fix-defined
                     assert(find_lab(new_seg, 0, fix_label(nb_fixes)) == new_seg.len() - 1); //@ C03,C13:labels-fix-once
                 }
-""")
+""" % hints)
     cb.after_stmt(r"self\.code\.append\(&mut tail\)", """
                 proof {
                     let new_seg = self.code@.subrange(position as int, self.code@.len() - (old_len - position - remove));
